@@ -16,7 +16,8 @@ claim("C02", "exploration", "bounded exhaustive input enumeration on the real co
 claim("C16", "exploration", "bounded exhaustive input enumeration on the real code against an independent backtracking enumeration of greedy-stable colourings",
       "For every pairing on up to 10/11 positions, every chord diagram of up to 4/6 stems and explicit 7/8-stem conflict graphs, the decoded "
       "members of all_dot_brackets equal, as a set, the greedy-stable proper colourings (product over components), without repetition, "
-      "containing the optimal and FCFS notation.",
+      "containing the optimal and FCFS notation; the same for every knotted pairing on up to 8/9 positions pushed through the 3D route (synthetic structures "
+      "in 1-4 strands: Mapping2D3D.all_dot_brackets, adapter.extract_secondary_structure_from_external, adapter.main --all-dot-brackets).",
       "Groups of crossing stems have at most 8 members. Trusts the harness's colouring enumerator.", "DESIGN.md 3/C16")
 
 claim("C07", "exploration", "bounded exhaustive input enumeration on the real code against an independent element decomposition (small-scope model checking)",
@@ -27,7 +28,8 @@ claim("C07", "exploration", "bounded exhaustive input enumeration on the real co
 claim("C12", "model_checking", "explicit-state breadth-first search over call histories on live objects with canonical state hashing, against fresh-object reference",
       "All call sequences up to depth 4 (quick) / 8 (thorough) over 10 public operations on a graph of up to 3 live BpSeq objects, for every "
       "root pairing on up to 6/7 positions and small chord diagrams: every answer equals the answer of a fresh copy and no object in the graph "
-      "ever changes; derivations equal their reference values.",
+      "ever changes; derivations equal their reference values; plus histories of depth 2/3 over the derivations on every chord diagram of 3-4 stems of "
+      "lengths 1-2 (derived objects as receivers).",
       "State merging relies on the canonical form (entries, pairs, caches, aliasing) determining all futures; deepcopy is trusted.", "DESIGN.md 3/C12")
 
 claim("C13", "model_checking", "exhaustive environment-answer and fault-sequence exploration of the solver seam on the real code, each execution replayed",
@@ -40,7 +42,8 @@ claim("C14", "model_checking", "deviation-bounded exploration of set-iteration o
       "Every alternative iteration order (d<=1 quick, d<=2 thorough) of every seed-dependent set iterated by rnapolis.common/tertiary while "
       "producing the 2D outputs is executed; and a battery of SHA-256 digests of all library and CLI outputs on a fixed input list is "
       "compared across fresh interpreters with PYTHONHASHSEED in {0,1,2,3,random} (quick) / {0..15,random,random} (thorough) and across "
-      "repeated in-process calls. A violation is reported only when two real runs differ.",
+      "repeated in-process calls and in reversed processing order; inputs include generated structures whose residues fit several bases equally well. "
+      "A violation is reported only when two real runs differ.",
       "Hash seeds are a finite list; set displays bypass the seam (listed by an AST pass); KD-tree pair sets contain int tuples whose order does not depend on the seed.",
       "DESIGN.md 3/C14")
 
@@ -66,12 +69,15 @@ claim("C10", "exploration", "exhaustive enumeration of a finite product of atom 
       "For the full product of chain counts {1,2,3,62,63} x id lengths x residue-number classes x first serials x insertion codes x models x atoms per "
       "residue x extra fields x source format, plus a 10000-residue chain and (thorough) >99999-atom tables: can_write_pdb agrees with the limits, fitting "
       "tables are returned unchanged, unfittable ones raise ValueError, and every fitted table is within limits, keeps atom order and fields, renames "
-      "chains/residues one-to-one preserving grouping and survives write_pdb + parse_pdb_atoms.",
+      "chains/residues one-to-one preserving grouping and survives write_pdb + parse_pdb_atoms; the same on row subsets of composite tables (mask, iloc, "
+      "groupby), on a 99990-atom table with interleaved chains, and through splitter.main / unifier.main -f PDB (a file per model that is the model up to a "
+      "proper renaming - unchanged when it fits - or no file and an error message exactly when no fit exists).",
       "Tables are built by the library's own parsers from independently emitted text; PDB-derived tables are within limits by construction.", "DESIGN.md 3/C10")
 
 claim("C08", "exploration", "deviation-bounded exhaustive enumeration of abstract atom tables x formats x emitter options x requested models on the real reader, expectation computed from the abstract table",
       "Every table within 2 deviations (thorough: 3 on a reduced list) of the base table - models sharing identities, negative numbers, insertion codes, "
-      "altlocs, repeated names, sub-0.5 A neighbours, HETATM, long names, absent occupancy, both null markers, label != auth - emitted as PDB and mmCIF and "
+      "same-name residues told apart by insertion code only, altlocs, repeated names, sub-0.5 A neighbours (also in a later model only), HETATM, long names, "
+      "absent occupancy, both null markers, label != auth - emitted as PDB and mmCIF and "
       "read for every requested model: only the requested model's atoms, each once, highest-occupancy copy, clash rule, residues in file order with exact identity and coordinates.",
       "Absent occupancy combined with duplicates/close atoms is executed but not judged; ties in occupancy admit either copy.", "DESIGN.md 3/C08")
 
@@ -90,7 +96,8 @@ claim("C18", "exploration", "exhaustive enumeration of a construction lattice (p
 claim("C17", "exploration", "exhaustive enumeration of a contact lattice and corpus variants under all 32 option combinations on the real code against an O(n^2) enumeration of the definition",
       "3,500+ two-residue placements bracketing every threshold (sum, sum+0.5) from both sides for all C/N/O/P type pairs, occupancy pairs and residue "
       "relations, and corpus structures (as is, compressed, jittered), each under all 32 option combinations: the clash list equals the definition as a set, "
-      "each pair once; clashfinder.main's printed maxima equal the maxima over the listed clashes and the CSV lists the same clashes.",
+      "each pair once; clashfinder.main's printed maxima equal the maxima over the listed clashes and the CSV lists the same clashes (mmCIF with and "
+      "without exptl/refine metadata, and PDB input).",
       "Radii read by name from module constants; nucleotide classification taken from Residue3D.is_nucleotide; absent occupancy judged only under ignore-occupancy.", "DESIGN.md 3/C17")
 
 claim("C03", "exploration", "exhaustive enumeration of placement lattices and corpus variant families on the real annotator, plus exhaustive/deviation-bounded exploration of KD-tree pair orders through a module seam, against an O(n^2) reference model",
@@ -114,12 +121,14 @@ claim("C11", "exploration", "invariant checking on every annotation produced by 
 claim("C05", "exploration", "exhaustive enumeration of a finite transformation family (d<=2) over corpus and lattice structures on the real reader+annotator, differential oracle with margin measurement by a reference model",
       "Every single transformation and every cross-group pair (rigid motions incl. 23 cube / 60 icosahedral rotations and +-500 A translations, atom order, "
       "order-preserving relabelings, PDB instead of mmCIF) applied to every corpus structure and to lattice structures with interactions leaves base pairs, "
-      "stackings, BPh, BR, BPSEQ, dot-bracket and extended dot-bracket unchanged up to the renaming; structures with a decision margin below 1e-6 are undecided.",
+      "stackings, BPh, BR, BPSEQ, dot-bracket and extended dot-bracket unchanged up to the renaming; structures with a decision margin below 1e-6 are undecided. "
+      "297 two-nucleotide placements with margins of 2e-5..2e-4 are moved in memory by 59 icosahedral rotations; lattice structures with two alternate "
+      "conformers of a residue are annotated identically as PDB and as mmCIF.",
       "Format comparisons use harness-emitted texts from one abstract atom list; rigid+format pairs use decimal-exact motions on the coordinate strings.", "DESIGN.md 3/C05, 5.1")
 
 claim("C06", "exploration", "exhaustive enumeration of all entry sequences up to length 2/3 over a finite entry alphabet on three host structures on the real mapping code, against an independent oracle",
       "For three hosts (two chains; gap with '?' placeholders; non-nucleotide group), with and without gap detection, every sequence of up to 2 (quick) / 3 "
-      "(thorough, stated restriction) entries over {20 ordered residue pairs incl. an absent residue} x {3-4 LW classes} x {no/table Saenger}: BPSEQ numbering and "
+      "(thorough, stated restriction) entries over {20 ordered residue pairs incl. an absent residue} x {3-4 LW classes} x {no/table Saenger, XIX on letters defining no class}, and the own annotation of 6/11 corpus files with variations: BPSEQ numbering and "
       "letters, symmetric matching taken from canonical input pairs with conflict-free pairs kept, per-strand dot-bracket, balanced full-length extended rows "
       "encoding every distinct input pair exactly once, all_dot_brackets members, and the adapter path returning the same texts.",
-      "Nucleotide classification and one-letter names are taken from the structure; supplied Saenger values are table-consistent.", "DESIGN.md 3/C06")
+      "Nucleotide classification and one-letter names are taken from the structure.", "DESIGN.md 3/C06")
